@@ -164,7 +164,11 @@ PECase(c) ==
     <<"SwitchCountDecoded", \A j \in DOMAIN c.decoded : c.decoded[j].ok = 1 => Len(c.decoded[j].sw) = nreal>>,
     <<"ComputesKernel", \A j \in DOMAIN c.decoded : (c.decoded[j].ok = 1 /\ Len(c.decoded[j].sw) = nreal) =>
          \A d \in DataBox(G.ndata) :
-            LET v == EvalPE(G, Expand(G, c.decoded[j].sw), d) IN v # Undef /\ v = EvalKernel(c.kernels[j], d)>>
+            LET v == EvalPE(G, Expand(G, c.decoded[j].sw), d) IN v # Undef /\ v = EvalKernel(c.kernels[j], d)>>,
+    \* the accelerator built around the merged PE declares one phs_switch_* register per hardware switch, between the streamer
+    \* registers and the loop bound, and configures a kernel with exactly the decoded values
+    <<"SwitchFieldsDeclared", c.acc.built = 0 \/ (c.acc.nswitchfields = nreal /\ c.acc.fieldsok = 1)>>,
+    <<"SwitchValuesConfigured", c.acc.built = 0 \/ \A j \in DOMAIN c.decoded : c.decoded[j].ok = 1 => c.acc.values[j] = c.decoded[j].sw>>
   >>)
 
 (* ---------------- C12: constants / globals re-laid-out at compile time ---------------- *)
@@ -173,7 +177,11 @@ RowMajorIdx(shape, idx, d) == IF d > Len(shape) THEN 0 ELSE idx[d] * Prod(shape,
 Relayout(c) ==
   First(<<
     <<"SameNumberOfElements", Len(c.new) = Len(c.old)>>,
-    <<"LogicalValuesAtNewPositions", \A idx \in Box(c.shape) : c.new[Addr(c.L, idx) + 1] = c.old[RowMajorIdx(c.shape, idx, 1) + 1]>>
+    <<"LogicalValuesAtNewPositions", \A idx \in Box(c.shape) : c.new[Addr(c.L, idx) + 1] = c.old[RowMajorIdx(c.shape, idx, 1) + 1]>>,
+    \* a subview of the re-laid-out global at a tile-aligned offset must have the layout its type now claims (the one the cast asked for)
+    <<"SubviewHasCastLayout", "sub" \notin DOMAIN c \/
+        \A k \in DOMAIN c.sub.offs : \A j \in Box(c.sub.sizes) :
+           Addr0(c.L, [d \in DOMAIN j |-> c.sub.offs[k][d] + j[d]]) - Addr0(c.L, c.sub.offs[k]) = Addr0(c.sub.L, j)>>
   >>)
 
 EqCase(c) == First(<< <<c.clause, c.x = c.y>> >>)
